@@ -186,6 +186,7 @@ pub struct ExecResult {
     pub last_recv_us: std::collections::HashMap<(Addr, Addr), u64>,
     pub delivered_frames: std::collections::HashMap<(Addr, Addr), i32>,
     pub recv_log: Vec<(Addr, Addr, u64)>,
+    pub matched_log: Vec<(Addr, Addr, u32, u64)>,
     pub base_us: u64,
 }
 
@@ -816,6 +817,11 @@ pub fn run<C: HCfg>(scn: &Scenario, devs: &Devs, opt: &RunOpt) -> ExecResult {
                     n.inject.push((inj.to, inj.from, inj.msg.clone(), inj.before));
                 }
             }
+            for inj in &scn.inject {
+                if inj.round == rel {
+                    n.inject.push((inj.to, inj.from, crate::wire::from_wire(&inj.msg), inj.before));
+                }
+            }
         }
         ggrs::verif_hooks::advance_us(scn.round_us);
         for ni in 0..nodes.len() {
@@ -1152,6 +1158,8 @@ fn step_node<C: HCfg>(
         fill_rec(n, &mut rec);
         if opt.track_sizes {
             record_sizes(n, true);
+        } else if scn.checks & (1 << 21) != 0 {
+            record_sizes(n, false);
         }
     }
     n.tr.calls.push(rec);
@@ -1261,6 +1269,7 @@ fn finish<C: HCfg>(
         last_recv_us: nb.last_recv_us.clone(),
         delivered_frames: nb.delivered_frames.clone(),
         recv_log: std::mem::take(&mut nb.recv_log),
+        matched_log: std::mem::take(&mut nb.matched_log),
         base_us,
     }
 }
